@@ -63,3 +63,15 @@ PROPS["C17"] = {
     "assumptions": ["consensus serialisation is canonical for the transactions the tower handles (tested)"],
     "partial": "the two computational clauses (another id fails; no altered message/signature verifies) are reductions + labelled tests, not theorems",
 }
+
+TB_CONC = TB_TOWER + [
+    "hook H5 (teos::vsync): with the feature on, Mutex/Condvar are wrappers reporting to the harness; the deterministic scheduler and the recorder are harness code",
+    "schedule exploration is SEARCH (bounded pre-emptions, fixed scenarios): it validates which sections are atomic and finds failing schedules, it is not a proof",
+]
+PROPS["C10"] = {"components": ["conc"], "monitor_props": ["C10"], "trusted_base": TB_CONC,
+    "assumptions": ["critical-section granularity: what runs between two lock operations of a thread is atomic with respect to the other threads' sections on the same locks",
+                    "height stamps read from relaxed atomics (start_block, in-mempool-since) and numbers echoed in replies are not part of the compared outcome (DESIGN.md C10)"],
+    "partial": "theorems cover the two orders of the mutually exclusive sections (no missed breach), charged-once, commuting slot updates, foreign keys; that every interleaving of whole operations is equivalent to a sequential order is explored (<= 2/3 pre-emptions), not proved; tokio scheduling and memory-model effects are outside the model. Known finding: requests racing with the purge of their own user panic."}
+PROPS["C11"] = {"components": ["conc", "tower"], "monitor_props": ["C11"], "trusted_base": TB_CONC,
+    "assumptions": ["the recorded lock traces (re-recorded and compared on every run) are the lock behaviour of the operations in the states explored; other states are covered by the lock-order graph recorded over every harness run"],
+    "partial": "deadlock freedom is a theorem for any number of threads running the recorded operation traces; abort-freedom is proved for the request handlers under local hypotheses and compared (model abort marker vs real panics) on every history for block processing; condition-variable waits are C12."}
